@@ -177,6 +177,9 @@ Definition path_dangling_b (g : graph) (path : list N) (nm : N) : bool :=
 Definition hint := (list N * list N)%type.        (* upper-case raws (interned), syntax kinds *)
 Inductive sres :=
 | SFuel                (* the model ran out of fuel: the real recursion would not terminate *)
+| SHang                (* a [Ref] is asked again while its own [simple_cache] ([OnceLock::get_or_init]) is being
+                          initialised by this very computation: the thread blocks for ever (std: "reentrant
+                          initialisation ... the current implementation deadlocks") *)
 | SSelfRef             (* panic "Self referential grammar detected" *)
 | SDangling            (* panic in [Dialect::ref] *)
 | SPanic               (* any other panic: unknown bracket type, [is_optional] of a type that has none *)
@@ -216,7 +219,11 @@ Fixpoint any_simple (rec : N -> sres) (elems : list N) : sres :=
       end
   end.
 
-Fixpoint simple (g : graph) (fuel : nat) (crumbs : list N) (n : N) : sres :=
+(** [busy]: the [Ref] nodes whose [simple_cache.get_or_init] closure is running (the cell is
+    entered *before* the crumbs check, base.rs:98-118); [crumbs]: the names on the trail.  The
+    value cached in the cell is not modelled: a computation that completes gives the same answer
+    whatever the crumbs, and one that panics or blocks leaves the cell uninitialised. *)
+Fixpoint simple (g : graph) (fuel : nat) (busy crumbs : list N) (n : N) : sres :=
   match fuel with
   | O => SFuel
   | S f =>
@@ -225,24 +232,25 @@ Fixpoint simple (g : graph) (fuel : nat) (crumbs : list N) (n : N) : sres :=
       | Some nd =>
           match nd with
           | NRef name _ _ _ =>
-              if mem_N name crumbs then SSelfRef
+              if mem_N n busy then SHang
+              else if mem_N name crumbs then SSelfRef
               else match deref g name with
                    | None => SDangling
-                   | Some t => simple g f (name :: crumbs) t
+                   | Some t => simple g f (n :: busy) (name :: crumbs) t
                    end
-          | NSeq elems _ _ => seq_simple (simple g f crumbs) (get_opt g) elems ([], [])
-          | NAnyOf _ elems _ _ => any_simple (simple g f crumbs) elems
-          | NDelim _ elems _ => any_simple (simple g f crumbs) elems
+          | NSeq elems _ _ => seq_simple (simple g f busy crumbs) (get_opt g) elems ([], [])
+          | NAnyOf _ elems _ _ => any_simple (simple g f busy crumbs) elems
+          | NDelim _ elems _ => any_simple (simple g f busy crumbs) elems
           | NBrack bt bs _ _ _ =>
               match bracket_lookup g bs bt with
               | None => SPanic
               | Some p =>
                   match deref g (bp_start p), deref g (bp_end p) with
-                  | Some st, Some _ => simple g f crumbs st
+                  | Some st, Some _ => simple g f busy crumbs st
                   | _, _ => SDangling
                   end
               end
-          | NNode _ gr => simple g f crumbs gr
+          | NNode _ gr => simple g f busy crumbs gr
           | NStr raws => SVal (Some (raws, []))
           | NMulti raws => SVal (Some (raws, []))
           | NTyped ts => SVal (Some ([], ts))
@@ -290,18 +298,45 @@ Definition unranked (g : graph) (R : pset) (ranks : list (N * N)) : list N :=
   let rk := mk_ranks ranks in
   filter (fun n => match rank_of rk n with Some _ => false | None => true end) (pset_elements R).
 
+(** the hint computation does not end with an answer or an ordinary panic *)
+Definition badb (r : sres) : bool := match r with SFuel | SHang | SSelfRef => true | _ => false end.
+Definition sres_code (r : sres) : N :=
+  match r with SFuel => 1 | SHang => 2 | SSelfRef => 3 | SDangling => 4 | SPanic => 5 | SVal _ => 0 end.
+(** diagnostics: what the model answers for the nodes of [l] whose hint computation is bad
+    (1 = out of fuel, 2 = blocks in its own OnceLock, 3 = self-reference panic) *)
+Definition hint_failures (g : graph) (fuel : nat) (l : list N) : list (N * N) :=
+  flat_map (fun n => let r := simple g fuel [] [] n in if badb r then [(n, sres_code r)] else []) l.
+
+(** a left-corner cycle certificate: c0 -> c1 -> ... -> ck -> c0 along [lc_children] *)
+Definition lc_step_b (g : graph) (a b : N) : bool := mem_N b (lc_children g a).
+Fixpoint lc_path_b (g : graph) (a : N) (rest : list N) (back : N) : bool :=
+  match rest with
+  | [] => lc_step_b g a back
+  | b :: rest' => lc_step_b g a b && lc_path_b g b rest' back
+  end.
+Definition lc_cycle_b (g : graph) (cyc : list N) : bool :=
+  match cyc with [] => false | c :: rest => lc_path_b g c rest c end.
+(** ... whose first node is reached from [FileSegment] along [path] (root first, the node last) *)
+Definition reachable_cycle_b (g : graph) (path cyc : list N) : bool :=
+  match path, cyc with
+  | r :: rest, c :: _ =>
+      match deref g name_FileSegment with Some r' => r' =? r | None => false end
+      && path_steps_b g r rest && (last path r =? c) && lc_cycle_b g cyc
+  | _, _ => false
+  end.
+
 (** ** comparison with what the implementation answered (translator fidelity) *)
 Definition subset_N (a b : list N) : bool := forallb (fun x => mem_N x b) a.
 Definition set_eq_N (a b : list N) : bool := subset_N a b && subset_N b a.
 Definition sres_eqb (a b : sres) : bool :=
   match a, b with
-  | SFuel, SFuel | SSelfRef, SSelfRef | SDangling, SDangling | SPanic, SPanic => true
+  | SFuel, SFuel | SHang, SHang | SSelfRef, SSelfRef | SDangling, SDangling | SPanic, SPanic => true
   | SVal None, SVal None => true
   | SVal (Some x), SVal (Some y) => set_eq_N (fst x) (fst y) && set_eq_N (snd x) (snd y)
   | _, _ => false
   end.
 Definition simple_mismatches (g : graph) (fuel : nat) (real : list (N * sres)) : list N :=
-  map fst (filter (fun nr => negb (sres_eqb (simple g fuel [] (fst nr)) (snd nr))) real).
+  map fst (filter (fun nr => negb (sres_eqb (simple g fuel [] [] (fst nr)) (snd nr))) real).
 Definition deref_mismatches (g : graph) (real : list (N * bool)) : list N :=
   map fst (filter (fun nb => negb (Bool.eqb (match deref g (fst nb) with Some _ => true | None => false end) (snd nb))) real).
 
